@@ -86,6 +86,8 @@ static long long kv_next(void)
                         return strtoll(line+3,NULL,10);
                 }
         }
+        /* the trace ends at the failed obligation: if that failure was reproduced we are done */
+        if(kv_failed){ fprintf(stderr,"replay inputs end after the reproduced failure\n"); exit(1); }
         fprintf(stderr,"replay file exhausted\n");
         exit(3);
 }
